@@ -75,6 +75,12 @@ func daemonMain(self string) {
 		pid, err := daemon.Launch(n)
 		os.WriteFile(filepath.Join(dir, fmt.Sprintf("nested.%d", os.Getpid())), []byte(fmt.Sprintf("%d %v", pid, err)), 0o644)
 	}
+	switch os.Getenv("C20_DETACH") {
+	case "1":
+		syscall.Setsid() // the classic first step of a daemon: a session of its own, no controlling terminal
+	case "2":
+		syscall.Setpgid(0, 0) // a process group of its own
+	}
 	switch os.Getenv("C20_CLEANS_ENV") {
 	case "1":
 		// a daemon that will start helpers from the same binary must not pass the daemon variables on to them
@@ -184,6 +190,7 @@ type kase struct {
 	shortLived       bool // the handler returns right after Done(): Launch still reports the pid it ran under
 	ignoresSigint    bool // the caller child runs with SIGINT ignored (nohup, background job)
 	rendezvous       bool // concurrent launches only: every daemon waits (up to 3 s) for its peers to have started before it calls Done()
+	detach           int  // before Done() the handler calls 1: setsid(), 2: setpgid(0, 0)
 	execs            bool // after Done() the handler replaces its process image (syscall.Exec) and lives on as another program
 	childOnly        bool // the first launch asks for a handler that is registered in the re-executed processes only
 	doneFrom         int  // 0: Done() is called by the handler's goroutine; 1: by another goroutine; 2: by a goroutine locked to a thread that ends with it
@@ -231,6 +238,9 @@ func (k kase) String() string {
 	}
 	if k.execs {
 		s += " daemonExecsAnotherProgramAfterDone"
+	}
+	if k.detach > 0 {
+		s += []string{"", " handlerCallsSetsidBeforeDone", " handlerCallsSetpgidBeforeDone"}[k.detach]
 	}
 	if k.rendezvous && k.concurrent > 1 {
 		s += " daemonsWaitForEachOtherBeforeDone"
@@ -293,6 +303,7 @@ func runCase(k kase) string {
 		env["C20_SHORT_LIVED"] = "1"
 	}
 	env["C20_DONE_FROM"] = strconv.Itoa(k.doneFrom)
+	env["C20_DETACH"] = strconv.Itoa(k.detach)
 	if k.execs && sleepBin != "" {
 		env["C20_EXEC_AFTER_DONE"] = sleepBin
 	}
@@ -332,7 +343,14 @@ func runCase(k kase) string {
 					cmd = exec.Command("./" + filepath.Base(selfExe))
 					cmd.Dir = filepath.Dir(selfExe)
 				}
-				cmd.Env = os.Environ()
+				// the child gets this case's variables and nobody else's: cases that call Launch in this very process put
+				// theirs into the process environment while they run, and a child started at that moment must not inherit them
+				for _, kv := range os.Environ() {
+					if name, _, _ := strings.Cut(kv, "="); strings.HasPrefix(name, "C20_") || strings.HasPrefix(name, "VERIF_DAEMON_") || strings.HasPrefix(name, "ENV_DAEMON_") {
+						continue
+					}
+					cmd.Env = append(cmd.Env, kv)
+				}
 				for kk, v := range env {
 					cmd.Env = append(cmd.Env, kk+"="+v)
 				}
@@ -589,7 +607,7 @@ func TestGrid(t *testing.T) {
 				if !rt.Thorough() && child && d == 150 && p == 150 {
 					continue // keep the quick tier short; covered by the thorough tier
 				}
-				k := kase{delayMs: d, pauseMs: p, concurrent: 1, childCaller: child, afterFailed: (d+p)%80 == 45, cleansEnv: idx % 4, relativeArgv0: child && idx%4 == 1, shortLived: idx%5 == 2, doneFrom: idx % 3}
+				k := kase{delayMs: d, pauseMs: p, concurrent: 1, childCaller: child, afterFailed: (d+p)%80 == 45, cleansEnv: idx % 4, relativeArgv0: child && idx%4 == 1, shortLived: idx%5 == 2, doneFrom: idx % 3, detach: (idx / 2) % 3}
 				if msg := runCase(k); msg != "" {
 					if strings.HasPrefix(msg, "harness:") {
 						rt.Inconclusivef(t, "%s: %s", k, msg)
@@ -666,6 +684,7 @@ func TestGenerated(t *testing.T) {
 		k.ignoresSigint = k.childCaller && rapid.IntRange(0, 2).Draw(t, "callerIgnoresSIGINT") == 0
 		k.doneFrom = rapid.SampledFrom([]int{0, 0, 1, 2}).Draw(t, "doneCalledFrom")
 		k.rendezvous = k.concurrent > 1 && !k.nested && rapid.IntRange(0, 3).Draw(t, "daemonsWaitForEachOther") == 0
+		k.detach = rapid.SampledFrom([]int{0, 0, 0, 1, 2}).Draw(t, "handlerDetachesBeforeDone")
 		k.execs = !k.shortLived && k.doneFrom == 0 && rapid.IntRange(0, 4).Draw(t, "daemonExecsAfterDone") == 0
 		k.childOnly = !k.afterFailed && rapid.IntRange(0, 4).Draw(t, "handlerKnownToTheReexecutedProcessOnly") == 0
 		msg := runCase(k)
@@ -705,6 +724,9 @@ func TestGenerated(t *testing.T) {
 		}
 		if k.execs {
 			ev.Label("daemon_execs_another_program_after_Done")
+		}
+		if k.detach > 0 {
+			ev.Label("handler_leaves_its_session_or_process_group_before_Done")
 		}
 		if k.rendezvous && k.concurrent > 1 {
 			ev.Label("daemons_wait_for_each_other_before_Done")
